@@ -952,6 +952,16 @@ def _nodelist_to_slot_render_func(
         if default_var:
             ctx[default_var] = slot_ref
 
+        # If the fill is defined inside a `{% block %}`, then `{{ block.super }}` is resolved by the BlockNode
+        # against the Context that the block was rendered with. But the fill may be rendered later (component
+        # rendering is deferred), when that Context has moved on. So we point the block to the Context
+        # that the fill is rendered with, which holds the state of the blocks as it was at the fill.
+        block = ctx.get("block", None)
+        if getattr(block, "context", None) is not None and block.context is not ctx:
+            block = copy(block)
+            block.context = ctx
+            ctx["block"] = block
+
         # NOTE: If a `{% fill %}` tag inside a `{% component %}` tag is inside a forloop,
         # the `extra_context` contains the forloop variables. We want to make these available
         # to the slot fill content.
